@@ -102,20 +102,29 @@ def sortTagged {β : Type} (lt gt : β → β → Bool) (asc : Bool) (elems : Li
   (arraySort (fun x y => lt x.1 y.1) (fun x y => gt x.1 y.1) asc elems.toArray).map
     (fun a => a.toList.map (·.2))
 
+def showBits (l : List Bool) : String := if l.isEmpty then "-" else String.ofList (l.map bitChar)
+
+/-- Tokens in sorted order followed by the comparison table of the result. -/
+def sortTaggedT {β : Type} (lt gt le ge : β → β → Bool) (asc : Bool) (elems : List (β × String)) : Option String :=
+  (arraySort (fun x y => lt x.1 y.1) (fun x y => gt x.1 y.1) asc elems.toArray).map
+    (fun a => showList (a.toList.map (·.2)) ++ " " ++
+      showBits (pairsTable (fun x y => if asc then lt x.1 y.1 else gt x.1 y.1) a.toList) ++ " " ++
+      showBits (chainTable (fun x y => if asc then le x.1 y.1 else ge x.1 y.1) a.toList))
+
 def sortValues (asc : Bool) (toks : List String) : String :=
   match toks.mapM (fun t => (parseValue t).map (fun v => (v, t))) with
   | none => "bad-op"
   | some elems =>
-    match sortTagged Val.lt Val.gt asc elems with
-    | some out => showList out
+    match sortTaggedT Val.lt Val.gt Val.le Val.ge asc elems with
+    | some out => out
     | none => "model-fault"
 
 def sortStrings (asc signed : Bool) (toks : List String) : String :=
   match toks.mapM (fun t => (parseStr t).map (fun v => (if signed then v.map signedUnit else v, t))) with
   | none => "bad-op"
   | some elems =>
-    match sortTagged Str.lt Str.gt asc elems with
-    | some out => showList out
+    match sortTaggedT Str.lt Str.gt Str.le Str.ge asc elems with
+    | some out => out
     | none => "model-fault"
 
 /-! #### The insertion-ordered hash array as far as `Sort` sees it: slots in storage order
@@ -172,7 +181,10 @@ def sortObject (asc : Bool) (ops : List String) : String :=
   | none => "bad-op"
   | some h =>
     match arraySort (fun (x y : Slot) => Str.lt x.key y.key) (fun x y => Str.gt x.key y.key) asc h.slots with
-    | some out => showSlots h.slots ++ " " ++ showSlots out ++ " lookups-ok"
+    | some out => showSlots h.slots ++ " " ++ showSlots out ++ " " ++
+        showBits (pairsTable (fun (x y : Slot) => if asc then Str.lt x.key y.key else Str.gt x.key y.key) out.toList) ++ " " ++
+        showBits (chainTable (fun (x y : Slot) => if asc then Str.le x.key y.key else Str.ge x.key y.key) out.toList) ++
+        " lookups-ok"
     | none => "model-fault"
 
 /-- What `{raw:v}` prints for the element kinds the loop stream uses. -/
@@ -215,6 +227,19 @@ def oracleLex (signed : Bool) (a b ab : String) : String :=
     if o.lt == lexLt x y && o.eq == (x == y) then "ok" else "not-lexicographic"
   | _, _, _ => "bad-op"
 
+def parseBits (s : String) : Option (List Bool) :=
+  if s == "-" then some [] else s.toList.mapM (fun c => if c == '1' then some true else if c == '0' then some false else none)
+
+/-- Ordered permutation, judged by the implementation's own comparisons of its result. -/
+def oracleSortTable (inp out : List String) (bits chain : String) : String :=
+  if !isPermOf out inp then "not-permutation" else
+  match parseBits bits, parseBits chain with
+  | some b, some c =>
+    if b.length != out.length * (out.length - 1) / 2 || c.length != b.length then "bad-table"
+    else if !tableOrdered b then "not-ordered"
+    else if !tableChain c then "not-a-chain" else "ok"
+  | _, _ => "bad-op"
+
 def oracleSort {β : Type} (before : β → β → Bool) (parse : String → Option β) (inp out : List String) : String :=
   if !isPermOf out inp then "not-permutation" else
   match out.mapM parse with
@@ -254,6 +279,7 @@ def handle (op : String) (args : List String) : String :=
   | "ordoracletri", [ab, bc, ac] => oracleTri ab bc ac
   | "ordoraclelex", [a, b, ab] => oracleLex false a b ab
   | "ordoraclelexs", [a, b, ab] => oracleLex true a b ab
+  | "ordoraclesort", [i, o, bits, chain] => oracleSortTable (parseList i) (parseList o) bits chain
   | "ordoraclesortv", [a, i, o] =>
     match asc? a with
     | some a => oracleSort (if a then Val.lt else Val.gt) parseValue (parseList i) (parseList o)
